@@ -138,6 +138,8 @@ def _single(draw, max_rows):
             else:
                 pairs.append([target, {"how": "callable_rid"}])
         plan["pairs"] = pairs
+        if fp.get("via") == "marked_by_group_by" and not all(s["how"].startswith("callable") for _, s in pairs):
+            del fp["via"]                     # on a marked frame modify takes functions only (documented)
         cand = [c["name"] for c in fp["cols"] if c["kind"] in ("i", "s", "b", "f", "d", "i8", "u8")]
         if n and cand and all(s["how"].startswith("callable") for _, s in pairs) and draw(st.integers(0, 2)) == 0:
             # the same edit group-wise: every column the call does not name stays as it is, rows included
